@@ -4,7 +4,7 @@
    as pinned is refuted at the end. *)
 From Coq Require Import Permutation.
 (* source tie by translation: the lemmas of these files are obligations of this property *)
-From Soy Require Import Proofs.SourceTieMsg.
+From Soy Require Import Proofs.SourceTieMsg Proofs.MsgIdSourceTie.
 From Soy Require Import Model.Bytes Model.Outcome Generated.Tables Model.MsgId Spec.Msg Proofs.MsgIdProofs Proofs.MsgIdInj.
 (* scopes *) Open Scope N_scope.
 
@@ -189,6 +189,17 @@ Proof. vm_compute. reflexivity. Qed.
 (* the bit that is dropped is the only thing lost: fingerprints differing in it alone give one id *)
 Example ex_dropped_bit : forall fp, fp < two63 -> fp mod two63 = (fp + two63) mod two63.
 Proof. intros fp H. unfold two63 in *. rewrite N.add_mod, N.mod_same, N.add_0_r, N.mod_mod by discriminate. reflexivity. Qed.
+
+(* ---- source tie by translation, lifted to the model's composite functions
+        (Proofs/MsgIdSourceTie.v; notes/gotrans-msgid-needs.md lists what is NOT tied this way) ---- *)
+Theorem C10_calc_id_matches_source : forall fpstr meaning,
+  Z.of_N (calc_id fpstr meaning) = src_soymsg_calcID_tail hash32_z meaning (src_soymsg_fingerprint hash32_z fpstr).
+Proof. exact calc_id_matches_source_full. Qed.
+Print Assumptions C10_calc_id_matches_source.
+Theorem C10_tag_loop_matches_source : forall s p,
+  alnum_prefix s = Some p <-> exists c r, s = p ++ c :: r /\ forallb src_alnum p = true /\ src_alnum c = false.
+Proof. exact alnum_prefix_matches_source. Qed.
+Print Assumptions C10_tag_loop_matches_source.
 
 (* ---- the model reproduces the ids of the official compiler that the existing
         tests contain (soymsg/soymsg_test.go, soymsg/pomsg/testdata) ---- *)
